@@ -16,6 +16,14 @@ use dlt_core::parse::{dlt_message, DltParseError, ParsedMessage};
 #[derive(Default)]
 pub struct M {}
 
+thread_local! {
+    static HISTORY_FAILURE: std::cell::RefCell<Option<(&'static str, Vec<u8>, Vec<u8>)>> = const { std::cell::RefCell::new(None) };
+    static INTERLEAVED: std::cell::Cell<u32> = const { std::cell::Cell::new(0) };
+}
+fn ctx_obs_interleaved() {
+    INTERLEAVED.with(|c| c.set(c.get() + 1));
+}
+
 fn first_diff(a: &[u8], b: &[u8]) -> usize {
     a.iter().zip(b).position(|(x, y)| x != y).unwrap_or(a.len().min(b.len()))
 }
@@ -87,7 +95,68 @@ fn encode_case(ctx: &mut Ctx) {
         };
         let sh = m.storage_header.clone();
         ctx.eval();
-        match guarded(move || Message::new(conf, sh).as_bytes()) {
+        // every other case builds a same-shaped twin between constructing the message and serialising
+        // it (and serialises the twin afterwards): what each object writes is its own content, whatever
+        // was built or written in between
+        let interleave = ctx.index % 16 >= 8;
+        let tw = crate::gen_msg::twin(&m);
+        let tw_conf = tw.extended_header.as_ref().map(|tx| MessageConfig {
+            version: tw.header.version,
+            counter: tw.header.message_counter,
+            endianness: tw.header.endianness,
+            ecu_id: tw.header.ecu_id.clone(),
+            session_id: tw.header.session_id,
+            timestamp: tw.header.timestamp,
+            payload: tw.payload.clone(),
+            extended_header_info: Some(ExtendedHeaderConfig {
+                message_type: tx.message_type.clone(),
+                app_id: tx.application_id.clone(),
+                context_id: tx.context_id.clone(),
+            }),
+        });
+        let tw_sh = tw.storage_header.clone();
+        let mut tw_want_msg = tw.clone();
+        if let (Some(wx), PayloadContent::NonVerbose(..) | PayloadContent::ControlMsg(..)) = (tw_want_msg.extended_header.as_mut(), &tw.payload) {
+            wx.argument_count = 0;
+        }
+        let tw_want = ref_encode(&tw_want_msg);
+        let hand_built = m.clone();
+        match guarded(move || {
+            let a = Message::new(conf, sh);
+            if interleave {
+                if let Some(tc) = tw_conf {
+                    let b = Message::new(tc, tw_sh);
+                    let first = a.as_bytes();
+                    let second = b.as_bytes();
+                    // a message that never went through the constructor, written after the others
+                    let third = hand_built.as_bytes();
+                    return (first, Some(second), Some(third));
+                }
+            }
+            (a.as_bytes(), None, None)
+        })
+        .map(|(first, second, third)| {
+            if let Some(sb) = &second {
+                if *sb != tw_want.bytes {
+                    return (first, Some(("twin built in between", sb.clone(), tw_want.bytes.clone())));
+                }
+            }
+            if let Some(tb) = &third {
+                if *tb != e.bytes {
+                    return (first, Some(("hand-built message written after two constructed ones", tb.clone(), e.bytes.clone())));
+                }
+            }
+            if interleave {
+                ctx_obs_interleaved();
+            }
+            (first, None)
+        })
+        .map(|(first, history_failure)| {
+            if let Some((what, got, wantb)) = history_failure {
+                HISTORY_FAILURE.with(|h| *h.borrow_mut() = Some((what, got, wantb)));
+            }
+            first
+        }) {
             Err(p) => ctx.panic_violation("encode.no_panic", &p, || J::obj().set("message", show_msg(&m)).set("via", "Message::new")),
             Ok(b) if b == want.bytes => ctx.obs("encode.constructed_message_ok"),
             Ok(b) => {
@@ -104,6 +173,15 @@ fn encode_case(ctx: &mut Ctx) {
                 })
             }
         }
+    }
+    if let Some((what, got, wantb)) = HISTORY_FAILURE.with(|h| h.borrow_mut().take()) {
+        let at = first_diff(&got, &wantb);
+        ctx.violation("encode.each_object_writes_its_own_content", pk, || {
+            J::obj().set("history", what).set("message", show_msg(&m)).set("crate_hex", hex_trunc(&got, 200)).set("reference_hex", hex_trunc(&wantb, 200)).set("first_difference_at", at)
+        });
+    }
+    if INTERLEAVED.with(|c| c.replace(0)) > 0 {
+        ctx.obs("encode.interleaved_construction_ok");
     }
     // parts
     if let Some(sh) = &m.storage_header {
@@ -317,7 +395,7 @@ impl Monitor for M {
 
     fn describe(&self, ctx: &Ctx) -> J {
         super::describe(
-            "1/4 encode cases: well-formed messages (random + systematic layer) serialised by the crate and compared byte-for-byte with the reference encoder, whole message, the same message built through Message::new(MessageConfig) (the constructor computes length, verbose flag and argument count itself), and per part (storage/standard/extended header, each of the first 6 arguments and their type-info words in both byte orders). 3/4 decode cases: input classes canonical (reference-encoded, never via the crate's writer) 20 %, dialect (reserved/struct type-info bits, TYLE on bool/string/raw, SCOD on any kind, ids with embedded NUL / no padding, missing or early terminators, FIXP on non-integer kinds, any version) 15 %, structure-aware mutants (16 operators on length fields, counts, type-info words, prefixes, terminators, UTF-8, byte order flag, argument dup/drop, truncation, junk, tails, pattern planted) 35 %, truncations 10 %, 0xFFFF length-prefix attacks with 66 KiB tails 5 %, arbitrary bytes 5 %, header-shaped random 10 %; 1/4 also parsed in the other storage mode, storage inputs 1/4 also with junk in front, small canonical messages 1/8 also at every cut. distinct = (class, storage mode, HTYP, MSIN, first payload bytes, reference verdict, crate verdict); non-trivial = reference verdict is a message or the input is a mutant/dialect variant of a valid message",
+            "1/4 encode cases: well-formed messages (random + systematic layer) serialised by the crate and compared byte-for-byte with the reference encoder, whole message, the same message built through Message::new(MessageConfig) (the constructor computes length, verbose flag and argument count itself; every other case constructs a same-shaped twin in between and serialises message, twin and the hand-built original in that order: each object must write its own content), and per part (storage/standard/extended header, each of the first 6 arguments and their type-info words in both byte orders). 3/4 decode cases: input classes canonical (reference-encoded, never via the crate's writer) 20 %, dialect (reserved/struct type-info bits, TYLE on bool/string/raw, SCOD on any kind, ids with embedded NUL / no padding, missing or early terminators, FIXP on non-integer kinds, any version) 15 %, structure-aware mutants (16 operators on length fields, counts, type-info words, prefixes, terminators, UTF-8, byte order flag, argument dup/drop, truncation, junk, tails, pattern planted) 35 %, truncations 10 %, 0xFFFF length-prefix attacks with 66 KiB tails 5 %, arbitrary bytes 5 %, header-shaped random 10 %; 1/4 also parsed in the other storage mode, storage inputs 1/4 also with junk in front, small canonical messages 1/8 also at every cut. distinct = (class, storage mode, HTYP, MSIN, first payload bytes, reference verdict, crate verdict); non-trivial = reference verdict is a message or the input is a mutant/dialect variant of a valid message",
             &[
                 "rule 4: where the buffer is short AND the declared length is visibly smaller than the headers, both 'incomplete' and 'reject' are accepted",
                 "type-info comparison modulo the string-coding bits of non-string kinds; all other fields exact, floats by bit pattern",
